@@ -261,6 +261,17 @@ func (in *Interp) jsonTextEqTerm(n *JNode, lit string) (*sym.Term, bool) {
 		}
 		return in.Ctx.F, true
 	}
+	if n.Kind == JNumVal {
+		// the text of a marshaled integer is its canonical decimal rendering
+		if n.Signed {
+			if v, err := strconv.ParseInt(lit, 10, 64); err == nil && strconv.FormatInt(v, 10) == lit {
+				return in.Ctx.Eq(in.Ctx.SExt(n.Val, 64), in.Ctx.BV(64, uint64(v))), true
+			}
+		} else if v, err := strconv.ParseUint(lit, 10, 64); err == nil && strconv.FormatUint(v, 10) == lit {
+			return in.Ctx.Eq(in.Ctx.ZExt(n.Val, 64), in.Ctx.BV(64, v)), true
+		}
+		return in.Ctx.F, true
+	}
 	if r, ok := jsonTextEqualsLiteral(n, lit); ok {
 		return in.Ctx.Bool(r), true
 	}
